@@ -85,6 +85,12 @@ def parts_for(pid, tier, only):
         P.append(e1_part(pid, tier, f.c03_iso(tier), ["bitmodel", "ops_c03"],
                          ["two values alias one <=3-byte buffer (clone / parent / overlapping or adjacent sibling), owned or borrowed 'static, optional third alias; contents symbolic; geometry literal"],
                          "buffers <= 3 bytes, tails <= 2 bytes, unwind 50", ["xeh::bitstr::Bitstr::{detach, append, insert, invert, read, data_mut}"], only))
+        from e2.driver import e2_run
+        from e2.lemmas import c03
+        P.append(e2_run(pid, tier, [c03], only=only, flavours=("on",),
+                        assumptions=["the real State::clone on an arbitrary state: the copy equals the original in every one of its components (reverse log included), the original is unchanged",
+                                     "independence afterwards: containers are Vec / rpds / Rc of immutable data (by their types); in-place mutated bit-string buffers are the E1 part"],
+                        bounds="none (one call, symbolic state)"))
     elif pid == "C09":
         from e2.driver import e2_run
         from e2.lemmas import c09
